@@ -299,14 +299,14 @@ impl Choices {
         full.truncate(fill as usize);
         vec![
             SeedDef { name: "empty", plan: Plan::Zero, seed: vec![], ids: vec![0, 1], len: if q { 3 } else { 4 }, dev: 3 },
-            SeedDef { name: "three-keys", plan: Plan::Cluster(2), seed: three, ids: vec![1, 5], len: if q { 2 } else { 3 }, dev: 3 },
-            SeedDef { name: "tombstone-saturated", plan: Plan::Zero, seed: tombs, ids: vec![tomb + 1, 100], len: if q { 2 } else { 3 }, dev: if q { 2 } else { 3 } },
-            SeedDef { name: "two-groups", plan: Plan::Seq, seed: two_groups, ids: vec![2, 100], len: 2, dev: if q { 2 } else { 3 } },
+            SeedDef { name: "three-keys", plan: Plan::Cluster(2), seed: three, ids: vec![1, 5], len: 3, dev: 3 },
+            SeedDef { name: "tombstone-saturated", plan: Plan::Zero, seed: tombs, ids: vec![tomb + 1, 100], len: if q { 2 } else { 3 }, dev: 3 },
+            SeedDef { name: "two-groups", plan: Plan::Seq, seed: two_groups, ids: vec![2, 100], len: 2, dev: 3 },
             SeedDef { name: "max-plan-tombstones", plan: Plan::Max, seed: max_tombs, ids: vec![0, 100], len: if q { 1 } else { 2 }, dev: 2 },
             // (which key ends up in the last bucket depends on the growth history: three removal patterns)
             SeedDef { name: "max-plan-tombstones-b", plan: Plan::Max, seed: max_tombs_b, ids: vec![fill - 1, 100], len: 1, dev: 2 },
             SeedDef { name: "max-plan-tombstones-c", plan: Plan::Max, seed: max_tombs_c, ids: vec![0, 100], len: 1, dev: 2 },
-            SeedDef { name: "full-load", plan: Plan::Zero, seed: full, ids: vec![3, 100], len: if q { 1 } else { 2 }, dev: if q { 2 } else { 3 } },
+            SeedDef { name: "full-load", plan: Plan::Zero, seed: full, ids: vec![3, 100], len: if q { 1 } else { 2 }, dev: 3 },
         ]
     }
 }
